@@ -1,18 +1,22 @@
 typedef unsigned long u64;
-u64 ga = 678; u64 gb = 593; u64 gc_[4] = {1,2,3,742}; static u64 sa = 900; static u64 sb[3] = {237,5,6};
+u64 ga = 214; u64 gb = 537; u64 gc_[4] = {1,2,3,67}; static u64 sa = 106; static u64 sb[3] = {907,5,6};
 __thread u64 tva = 3; __thread u64 tvb = 4;
 extern u64 ext_a, ext_b; extern u64 ext_f(u64); extern u64 ext_g(u64);
-__attribute__((noinline)) u64 fn0(u64 x) { return x * 261 + ga + sb[0]; }
-__attribute__((noinline)) static u64 sf0(u64 x) { return (x ^ 678) + sa + gb; }
-__attribute__((noinline)) u64 fn1(u64 x) { return x * 415 + ga + sb[1]; }
-__attribute__((noinline)) static u64 sf1(u64 x) { return (x ^ 593) + sa + gb; }
-__attribute__((noinline)) u64 fn2(u64 x) { return x * 809 + ga + sb[2]; }
-__attribute__((noinline)) static u64 sf2(u64 x) { return (x ^ 742) + sa + gb; }
-__attribute__((noinline)) u64 fn3(u64 x) { return x * 925 + ga + sb[0]; }
-__attribute__((noinline)) static u64 sf3(u64 x) { return (x ^ 900) + sa + gb; }
-u64 (*const ftab[])(u64) = {fn0, fn1, fn2, fn3, sf0, sf1, sf2, sf3};
+__attribute__((noinline)) u64 fn0(u64 x) { return x * 313 + ga + sb[0]; }
+__attribute__((noinline)) static u64 sf0(u64 x) { return (x ^ 214) + sa + gb; }
+__attribute__((noinline)) u64 fn1(u64 x) { return x * 503 + ga + sb[1]; }
+__attribute__((noinline)) static u64 sf1(u64 x) { return (x ^ 537) + sa + gb; }
+__attribute__((noinline)) u64 fn2(u64 x) { return x * 675 + ga + sb[2]; }
+__attribute__((noinline)) static u64 sf2(u64 x) { return (x ^ 67) + sa + gb; }
+__attribute__((noinline)) u64 fn3(u64 x) { return x * 679 + ga + sb[0]; }
+__attribute__((noinline)) static u64 sf3(u64 x) { return (x ^ 106) + sa + gb; }
+__attribute__((noinline)) u64 fn4(u64 x) { return x * 411 + ga + sb[1]; }
+__attribute__((noinline)) static u64 sf4(u64 x) { return (x ^ 907) + sa + gb; }
+__attribute__((noinline)) u64 fn5(u64 x) { return x * 313 + ga + sb[2]; }
+__attribute__((noinline)) static u64 sf5(u64 x) { return (x ^ 313) + sa + gb; }
+u64 (*const ftab[])(u64) = {fn0, fn1, fn2, fn3, fn4, fn5, sf0, sf1, sf2, sf3, sf4, sf5};
 u64 *ptab[] = { &ga, &gb, &gc_[2], &sa, &sb[1], &ext_a };
 __attribute__((constructor)) static void ctor_a(void) { ga += 1; }
 __attribute__((constructor)) static void ctor_b(void) { gb += 2; }
-u64 driver(u64 x) { u64 v = x; v += fn0(v) + sf0(v); v += fn1(v) + sf1(v); v += fn2(v) + sf2(v); v += fn3(v) + sf3(v); v += ftab[x % 8](v) + *ptab[x % 6]; v += ext_f(v) + ext_a + ext_g(v) + ext_b; tva += v; tvb ^= v; v += tva + tvb; return v; }
+u64 driver(u64 x) { u64 v = x; v += fn0(v) + sf0(v); v += fn1(v) + sf1(v); v += fn2(v) + sf2(v); v += fn3(v) + sf3(v); v += fn4(v) + sf4(v); v += fn5(v) + sf5(v); v += ftab[x % 12](v) + *ptab[x % 6]; v += ext_f(v) + ext_a + ext_g(v) + ext_b; tva += v; tvb ^= v; v += tva + tvb; return v; }
 u64 tail0(u64 x) { return fn0(x + 1); }
